@@ -175,31 +175,13 @@ theorem C07_children {t : Tree} {p : Path} (hw : wf t = true) (h : Valid t p) :
     lastChild t p = (children t p).getLast? :=
   ⟨children_spec hw h, rfl, firstChild_eq t p, lastChild_eq hw h⟩
 
-/-- Full-strength statement for `reverse_children`. It is FALSE for the code as shipped
-    (`C07_reverse_children_endless`): with indextree 4.7.2, `children().rev()` never ends. -/
-def C07_reverse_children_Statement : Prop :=
-  ∀ (t : Tree) (p : Path) (limit : Nat), wf t = true → Valid t p →
-    reverseChildren t limit p = ((children t p).reverse).take limit
-
-/-- `reverse_children` is `children` reversed when the node has at most one raw child; and it
-    would be in general if `children().rev()` kept the double-ended-iterator contract. -/
-theorem C07_reverse_children_partial {t : Tree} {p : Path} (hw : wf t = true) (h : Valid t p) :
-    ((subAt t p).kids.length ≤ 1 → ∀ limit, reverseChildren t (limit + 1) p = (children t p).reverse) ∧
-    reverseChildrenContract t p = (children t p).reverse :=
-  ⟨fun hk limit => reverseChildren_le_one hw h hk limit, reverseChildrenContract_eq hw h⟩
-
-/-- With two or more raw children, the last one normal: however many items are taken from
-    `reverse_children`, every one of them is the last child. -/
-theorem C07_reverse_children_endless {t : Tree} {p : Path} (hk : 2 ≤ (subAt t p).kids.length)
-    (hlast : isNormalAt t (p ++ [(subAt t p).kids.length - 1]) = true) (limit : Nat) :
-    reverseChildren t limit p = List.replicate limit (p ++ [(subAt t p).kids.length - 1]) :=
-  reverseChildren_endless hk limit hlast
-
-/-- Closed witness `<a><b/><c/></a>`: the full-strength statement fails. -/
-theorem C07_reverse_children_not : ¬ C07_reverse_children_Statement := by
-  intro hS
-  have := hS (.node (.element 2) [.node (.element 3) [], .node (.element 4) []]) [] 3 (by decide) (by decide)
-  revert this; decide
+/-- `reverse_children` (walks `previous_sibling` from the raw last child, `take_while(is_normal)`):
+    the raw children of `p` last first up to the first non-normal one (any tree; the fuel is
+    adequate), i.e. `children` reversed in a well-formed tree. -/
+theorem C07_reverse_children {t : Tree} {p : Path} (h : Valid t p) :
+    reverseChildren t p = (rawChildPaths t p).reverse.takeWhile (isNormalAt t) ∧
+    (wf t = true → reverseChildren t p = (children t p).reverse) :=
+  ⟨reverseChildren_eq_spec h, fun hw => reverseChildren_eq hw h⟩
 
 /-- Siblings of a non-root node `π ++ [i]`, of any category: `following_siblings` /
     `preceding_siblings` are the node followed by its later / earlier raw siblings of the same
@@ -334,24 +316,18 @@ theorem C07_document_element {t : Tree} {p : Path} (hw : wf t = true) (h : Valid
   ⟨fun _ hc => documentElement_ok hw h hc, (documentElement_err t p).1, (documentElement_err t p).2.1,
     (documentElement_err t p).2.2⟩
 
-/-- Full-strength statement for `top_element`: it never panics. FALSE (`C07_top_element_not`). -/
-def C07_top_element_Statement : Prop := ∀ (t : Tree) (p : Path), Valid t p → topElement t p ≠ .panic
-
-/-- `top_element` panics exactly on a document node without element child; otherwise, on a
-    document node it is `document_element`, on any other node the first element on the way
-    from the root down to the node (the node itself if there is none). -/
-theorem C07_top_element_partial (t : Tree) (p : Path) :
-    (topElement t p = .panic ↔
-      (valueAt t p).isDocument = true ∧ ∀ c ∈ children t p, (valueAt t c).isElement = false) ∧
-    ((valueAt t p).isDocument = true → ∀ c, topElement t p = .ok c ↔ documentElement t p = .ok c) ∧
+/-- `top_element` is total: it never panics. On a document node it is the first element child
+    (what `document_element` returns), the document node itself if there is none; on any other
+    node it is the first element on the way from the root down to the node, the node itself
+    if there is none. Any tree, any node. -/
+theorem C07_top_element (t : Tree) (p : Path) :
+    topElement t p ≠ .panic ∧
+    ((valueAt t p).isDocument = true →
+      topElement t p = .ok (((children t p).find? (fun c => (valueAt t c).isElement)).getD p)) ∧
+    ((valueAt t p).isDocument = true → ∀ c, documentElement t p = .ok c → topElement t p = .ok c) ∧
     ((valueAt t p).isDocument = false →
       topElement t p = .ok (((ancRel p ++ [p]).find? (fun a => (valueAt t a).isElement)).getD p)) :=
   topElement_eq t p
-
-/-- Closed witness: an empty document. -/
-theorem C07_top_element_not : ¬ C07_top_element_Statement := by
-  intro hS
-  exact hS (.node .document []) [] (by decide) (by decide)
 
 /-! ## Non-vacuity -/
 
@@ -380,8 +356,7 @@ example : edgeWalk (Edge.next exTree) 20 (.start [0, 2]) =
     [.start [0, 2], .start [0, 2, 0], .stop [0, 2, 0], .stop [0, 2], .start [0, 3], .stop [0, 3],
      .start [0, 4], .stop [0, 4], .stop [0], .start [1], .stop [1], .stop []] := by decide
 example : documentElement exTree [] = .ok [0] ∧ topElement exTree [0, 2, 0] = .ok [0] := by decide
-/-- The hypotheses of `C07_reverse_children_endless` are satisfiable. -/
-example : 2 ≤ (subAt exTree []).kids.length ∧ isNormalAt exTree ([] ++ [(subAt exTree []).kids.length - 1]) = true := by
-  decide
+example : reverseChildren exTree [0] = [[0, 4], [0, 3], [0, 2]] := by decide
+example : topElement (.node .document [.node (.comment []) []]) [] = .ok [] := by decide
 
 end XotModel.Props
